@@ -274,6 +274,11 @@ func c09Corpus() []c09Doc {
 		c09Doc{"markers", doc(mk("a"), ev.EList(), ev.EPInt(1), rf("a"), ev.EPInt(2), ev.EEnd()), []interface{}{nil, []interface{}{}}},
 		c09Doc{"markers", doc(ev.EList(), ev.EPInt(1), mk("a"), ev.EMap(), ev.EStr("k"), mk("b"), ev.EStr("v"), ev.EStr("l"), rf("b"), ev.EEnd(), rf("a"), rf("b"), ev.EEnd()), []interface{}{nil, []interface{}{}}},
 	)
+	// F8: chunked arrays with an empty continued chunk in the middle (valid; no marshaler writes it)
+	out = append(out,
+		c09Doc{"empty-continued-chunk", doc(ev.EList(), ev.EStr("first"), ev.EABegin(events.ArrayTypeString), ev.EChunk(3, true), ev.EData([]byte("abc")), ev.EChunk(0, true), ev.EChunk(2, false), ev.EData([]byte("de")), ev.EStr("last"), ev.EEnd()), []interface{}{nil, []interface{}{}, []string{}}},
+		c09Doc{"empty-continued-chunk", doc(ev.EList(), ev.EPInt(1), ev.EABegin(events.ArrayTypeUint8), ev.EChunk(0, true), ev.EChunk(2, true), ev.EData([]byte{7, 8}), ev.EChunk(0, true), ev.EChunk(1, false), ev.EData([]byte{9}), ev.EPInt(2), ev.EEnd()), []interface{}{nil, []interface{}{}}},
+	)
 	// F6: payloads longer than the binary reader's initial buffer (127 bytes) and than two of its growth steps, as the
 	// top-level value and between list elements
 	seq := func(n int) []byte {
